@@ -132,6 +132,9 @@ def gen_str_text(width, rng, alphabet=PRINTABLE, min_len=0):
         text = rng.choice(nb) + text[1:]
         if n > 1:
             text = text[:-1] + rng.choice(nb)
+    if len(text) < width and rng.random() < 0.08:
+        # C-style padding: the text is terminated and filled up with NUL bytes
+        return text + "\0" * (width - len(text))
     return pad(text, width, rng)
 
 
